@@ -14,7 +14,7 @@ CHECKS = {
             "One recorded known finding (V2 reply packet split across TCP segments) is keyed by mechanism (version 2 and a cut inside a packet) and only suppresses the refresh half of such cases.", "DESIGN.md section 2 C01"),
     "C02": ("exploration", "differential runtime monitor: real codec vs independent reference codec, exhaustive lengths + seeded random",
             "Every frame length 0..255 x boundary device ids enumerated in both directions plus seeded random frames/ids/instants and "
-            "LAN.send on a simulated V2 connection (incl. retransmissions, long sessions, 15..257 responses to one request, replies followed by FIN/RST, frames that look like packets, 2-4 LAN objects at overlapping times) and 70 000+ packets encoded in one process; held-on-observed, not a proof.",
+            "LAN.send on a simulated V2 connection (incl. retransmissions, long sessions, 15..257 responses to one request, replies followed by FIN/RST, frames that look like packets, packets the device pushes between two requests, 2-4 LAN objects at overlapping times) and 70 000+ packets encoded in one process; held-on-observed, not a proof.",
             "Trusts mv/ref/v2.py (independent V2 implementation) and the AES block primitive (cross-checked at setup).", "DESIGN.md section 2 C02"),
     "C03": ("fault_enumeration", "fault enumeration with an outcome-class runtime oracle on the real decoder (all bit flips, truncations, byte substitutions)",
             "Every single-bit flip and every truncation of authentic packets for every frame length 0..255, all 255 values of each marker/length byte and a 16-bit length catalogue, byte substitutions (all 255 values "
@@ -38,7 +38,7 @@ CHECKS = {
             "All command classes over their parameter domains (512 property subsets, every property value, both capability pages, states), public operations under several capability profiles (also against additive-check devices with junk/corrupted/missing/duplicated replies and with two clients at once), deferred serialisation, attribute reads (str/repr/to_dict/properties) between operations, and mixed sequences spanning many id wrap-arounds.",
             "Trusts mv/ref/acframe.py (bitwise CRC-8/MAXIM) and the reference device's command grammar in mv/simdev.py.", "DESIGN.md section 2 C12"),
     "C13": ("fault_enumeration", "single-byte fault enumeration on valid response frames with an independent validity predicate; state-diff and online/supported oracle after refresh()/get_capabilities()",
-            "Every byte position after the start byte x substitute values (29 sampled in quick, all 255 in thorough; one frame or 2-5 copies per exchange; refresh, get_capabilities and toggle_display) x {plain, outer checksum recomputed} for state, capabilities, properties, energy and humidity responses; in half of the cases another client object accepts the genuine frame first.",
+            "Every byte position after the start byte x substitute values (29 sampled in quick, all 255 in thorough; one frame or 2-5 copies per exchange; refresh, get_capabilities and toggle_display) x {plain, outer checksum recomputed} for state, capabilities, properties, energy and humidity responses; in half of the cases another client object accepts the genuine frame first; a capabilities query answered by the corrupted frame after the device went offline.",
             "Validity as defined in the statement's first sentence; corruptions that still satisfy it (other body check matches, property-response exemption) are skipped and counted.", "DESIGN.md section 2 C13"),
     "C14": ("fault_enumeration", "containment monitor: no exception may escape five public operations fed enumerated malformed-but-checksum-valid responses; good-frame-applied oracle on mixed exchanges",
             "All body/raw truncation lengths of every response kind, count/size bytes 0..255, records pointing past the end, every property/capability value, ids 0..255 x 6 frame types, random bodies, mixes of good and bad frames (state, one- and two-page capability replies with unsolicited 0xB5 frames, property reports), one-record capability profiles with every value followed by unusual state reports.",
@@ -50,7 +50,7 @@ CHECKS = {
             "Structured catalogues (length-field boundaries, signed garbage ciphertext, authentic packets with boundary header fields, type nibbles x phases, pad nibbles, sizes, truncations, peer FIN/RST after or instead of its bytes) plus seeded random mutation, across LAN.send, LAN.authenticate, Device.authenticate, Device._send_command and AirConditioner.refresh/apply/get_capabilities/toggle_display incl. implicit re-authentication and peer bytes arriving 0..1.2 s after a genuine implicit handshake reply.",
             "The peer controls bytes only; exceptions inside protocol callbacks are recorded, judged only through what escapes the entry point.", "DESIGN.md section 2 C09"),
     "C15": ("exploration", "metamorphic runtime oracle on the real capability parser (whole list vs in-order merge of single records) and paging invariance through get_capabilities() for every split point",
-            "Every known capability id x every value between sentinel records, temperature records of sizes 0..10 at every position, unknown/zero-size/odd-size records, random lists of <= 12 records; every split point across two responses; re-query on the same object with the same first page; a query abandoned while connecting before the judged one.",
+            "Every known capability id x every value between sentinel records, temperature records of sizes 0..10 at every position, unknown/zero-size/odd-size records, random lists of <= 12 records; every split point across two responses; re-query on the same object with the same first page; a query abandoned while connecting before the judged one; records of different ids must not change each other's results.",
             "Only well-formed lists are judged; single-record interpretations come from the real parser (no value tables in the oracle).", "DESIGN.md section 2 C15"),
     "C07": ("exploration", "offline trace checker over the simulated device's per-connection wire log (decoded with the device's own keys) joined with the harness call log; virtual-time clock jumps",
             "All event histories of depth <= 3 (quick) / <= 4 (thorough) over a 13-letter alphabet with 4 connection-lifetime settings, directed periodic-use histories, random histories to depth 25, one long single-connection session (> 4096 / > 65536 packets) followed by 12 h jumps, the same histories under five TZ settings (DST changes on the jump), refused reconnects while the old connection is open, copies / pickles of the disconnected object, and credentials with whitespace / NUL edge bytes through Device.authenticate.",
@@ -68,7 +68,7 @@ CHECKS = {
             "Every distinct interleaving of <= 6 datagrams from <= 4 hosts, 22 bad-reply classes (incl. V1 announcements whose TCP port accepts) alone / next to good hosts / from every subset of hosts, good hosts of any type naming any address in their body, listening windows 1..8 s, ICMP errors delivered to the socket between replies, hosts sharing one device id, wall-clock steps, random larger schedules.",
             "Each host is consistently good or bad within a run; a V1 announcement whose TCP connect is refused or never completes is outside the statement's reply classes (DESIGN.md section 4, observation 3).", "DESIGN.md section 2 C18"),
     "C19": ("exploration", "model cloud server (httpx.MockTransport through get_async_client) verifying every request on the wire; returned-credential and retry/error-mapping oracles; end-to-end discovery + V3 authentication on the simulated network",
-            "Match position x near-miss ids x list sizes, all fault scripts of length <= 3 per request stage over 6 fault kinds, credentials over printable ASCII incl. + & = % space @, built-in regional credentials, both udpid byte orders end to end, faults at the login and at the getToken stage of Discover.connect(), units silent on a foreign token, timeouts that take 10 s of loop time.",
+            "Match position x near-miss ids x list sizes, all fault scripts of length <= 3 per request stage over 6 fault kinds, credentials over printable ASCII incl. + & = % space @, built-in regional credentials, both udpid byte orders end to end, faults at the login and at the getToken stage of Discover.connect(), units silent on a foreign token, discovery with the region argument alone (built-in account per region), timeouts that take 10 s of loop time.",
             "No offline ground truth of the real server: the model is an independent second implementation of the documented algorithm, checked on the wire form.", "DESIGN.md section 2 C19"),
     "C20": ("exploration", "in-process runs of msmart.cli.main() on the virtual loop against a simulated device: final device state vs reported state overlaid with a README-derived interpretation; exit status and zero-I/O oracle for invalid input",
             "Every writable setting, every enumeration member and alias by name in three letter cases and by value, raw fan integers, int/float numbers, boolean spellings, display toggle 2x2, pairs and tuples of settings, V2 and V3 (--id/--token/--key), with/without --capabilities (also restricted capability profiles), lines run after a fresh import of msmart, and an invalid-input catalogue.",
